@@ -616,7 +616,7 @@ var lenPatterns = [][]byte{
 func (gc *genCtx) emitTL(name, desc string, bs []byte, kind string) {
 	g := gc.g
 	hx := h.Hex(bs)
-	g.Emit("tl.dec", name, desc, hx)
+	g.Emit("tld.dec", name, desc, hx)
 	g.Emit("go.tl.safe", name, hx)
 	g.Count("tl_" + kind)
 	gc.perType[name]++
@@ -628,7 +628,7 @@ func (gc *genCtx) emitTL(name, desc string, bs []byte, kind string) {
 func (gc *genCtx) genTLType(r regType, perType int) {
 	g := gc.g
 	desc := gc.sc.desc(r.T)
-	g.Emit("tl.consts", r.Name, desc)
+	g.Emit("tld.consts", r.Name, desc)
 	budget := perType
 	seeds := 3
 	valid := 0
@@ -755,7 +755,7 @@ func (gc *genCtx) genTL() {
 				d = gc.sc.desc(tlByName[n])
 			}
 		}
-		g.Emit("tl.reqdec", d, h.Hex(b))
+		g.Emit("tld.reqdec", d, h.Hex(b))
 		g.Emit("go.tl.reqdec", h.Hex(b))
 		g.Count("tl_reqdec")
 	}
@@ -800,7 +800,7 @@ func (gc *genCtx) genTL() {
 		default:
 			b = g.Bytes(g.Rng.Intn(12))
 		}
-		g.Emit("tl.len", h.Hex(b))
+		g.Emit("tld.len", h.Hex(b))
 		g.NonTrivial("len" + h.Hex(b))
 	}
 	for k := 0; k < g.Scale(400, 6000); k++ {
@@ -824,7 +824,7 @@ func (gc *genCtx) genTL() {
 		if g.Rng.Intn(4) == 0 {
 			known = "0"
 		}
-		g.Emit("tl.pqa", known, h.Hex(p))
+		g.Emit("tld.pqa", known, h.Hex(p))
 		g.NonTrivial("pqa" + h.Hex(p))
 	}
 }
